@@ -342,8 +342,12 @@ def profile(spec):
     """JSON spec -> f(x, y, z).  Kinds:
        {"kind": "const", "v": v}
        {"kind": "lin", "v": v, "g": [gx, gy, gz], "p0": [x0, y0, z0]}       v * (1 + g.(p - p0)); exactly v at p0
-       {"kind": "gauss", "v": v, "p0": [..], "w": width}                    v * exp(-|p - p0|^2 / (2 w^2))"""
+       {"kind": "gauss", "v": v, "p0": [..], "w": width}                    v * exp(-|p - p0|^2 / (2 w^2))
+       {"kind": "points", "pts": [[x, y, z], ...], "vals": [v_k, ...], "g": [gx, gy, gz] (optional)}
+                                  in the Voronoi cell of p_k: v_k * (1 + g.(p - p_k)); exactly v_k at p_k"""
     kind = spec.get("kind", "const")
+    if kind == "points":
+        return _points_profile(spec)
     v = float(spec["v"])
     if kind == "const":
         return lambda x, y, z: v
@@ -355,3 +359,19 @@ def profile(spec):
         w = float(spec["w"])
         return lambda x, y, z: v * math.exp(-((x - x0) ** 2 + (y - y0) ** 2 + (z - z0) ** 2) / (2 * w * w))
     raise ValueError("unknown profile kind %r" % kind)
+
+
+def _points_profile(spec):
+    pts = [tuple(float(c) for c in p) for p in spec["pts"]]
+    vals = [float(v) for v in spec["vals"]]
+    gx, gy, gz = spec.get("g") or (0.0, 0.0, 0.0)
+
+    def f(x, y, z):
+        best, bd = 0, float("inf")
+        for k, (a, b, c) in enumerate(pts):
+            d = (x - a) ** 2 + (y - b) ** 2 + (z - c) ** 2
+            if d < bd:
+                best, bd = k, d
+        a, b, c = pts[best]
+        return vals[best] * (1.0 + (gx * (x - a) + gy * (y - b) + gz * (z - c)))
+    return f
